@@ -604,17 +604,18 @@ func c15r2(c *Ctx) {
 // Returns P.
 func c15AvailableFacts(p *Program, fs []Fact) (ssa.Value, []string) {
 	var missing []string
-	var cond *ssa.Call
+	var cond ssa.Value
 	var P ssa.Value
-	isCond := func(v ssa.Value) (*ssa.Call, ssa.Value) {
-		call, _ := asCall(v)
-		if call == nil || !isCallTo(call.Common(), pkgMeta+".FindStatusCondition") || len(call.Common().Args) != 2 || !isStringConst(call.Common().Args[1], "Available") {
+	// the lookup of the Available condition (FindStatusCondition or an equivalent spelling): returns
+	// the value identifying the lookup and the object whose conditions are searched
+	isCond := func(v ssa.Value) (ssa.Value, ssa.Value) {
+		id, conds, typ, ok := p.pfFoundCondition(v)
+		if !ok || typ != "Available" {
 			return nil, nil
 		}
-		x := c09ConditionsOwner(p, call.Common().Args[0])
-		return call, x
+		return id, c09ConditionsOwner(p, conds)
 	}
-	fieldOfCond := func(v ssa.Value, field string) (*ssa.Call, ssa.Value) {
+	fieldOfCond := func(v ssa.Value, field string) (ssa.Value, ssa.Value) {
 		u, ok := v.(*ssa.UnOp)
 		if !ok || u.Op != token.MUL {
 			return nil, nil
@@ -680,7 +681,7 @@ func c15r3(c *Ctx) {
 	// the phase parameter (for the no-class no-op)
 	classEmpty := func(fs []Fact) bool {
 		for _, f := range fs {
-			x, nonEmptyWhenTrue, ok := lenCmp(f.Cond)
+			x, nonEmptyWhenTrue, ok := pfEmptyCmp(f.Cond)
 			if !ok || f.Pol == nonEmptyWhenTrue {
 				continue
 			}
@@ -855,15 +856,32 @@ func c15r4(c *Ctx) {
 			get = call
 		}
 	}
+	// metav1.IsControlledBy(<phase object>, objectSet.ClientObject()) — the library call or the same
+	// predicate written out (pfControlledBy)
+	controlledTri := func(fs []Fact) tri {
+		return p.pfControlledBy(fs,
+			func(o ssa.Value) bool { return p.sameValue(o, del.Obj) },
+			func(w ssa.Value) bool {
+				co, _ := asCall(w)
+				return co != nil && calleeName(co.Common()) == "ClientObject" && c15IsParam(callRecv(co.Common()))
+			})
+	}
 	controlled := func(fs []Fact, pol bool) bool {
-		_, ok := p.findFactCall(fs, pol, []string{pkgMetaV1 + ".IsControlledBy"}, func(cc *ssa.CallCommon) bool {
-			if len(cc.Args) != 2 || !p.sameValue(cc.Args[0], del.Obj) {
-				return false
-			}
-			co, _ := asCall(cc.Args[1])
-			return co != nil && calleeName(co.Common()) == "ClientObject" && c15IsParam(callRecv(co.Common()))
-		})
-		return ok
+		want := noTri
+		if pol {
+			want = yesTri
+		}
+		return controlledTri(fs) == want
+	}
+	// a disjunctive guard (`a || b`) reaches the guarded block through several edges: judged per edge
+	holdsAtReturn := func(rc ReturnCase, pred func([]Fact) bool) bool {
+		if pred(rc.Facts) {
+			return true
+		}
+		if rc.Pred != nil {
+			return p.mwHoldsOnAllPaths(rc.Pred, pred)
+		}
+		return p.mwHoldsOnAllPaths(rc.Ret.Block(), pred)
 	}
 	notFoundOf := func(fs []Fact, src *ssa.Call) bool {
 		if src == nil {
@@ -951,7 +969,7 @@ func c15r4(c *Ctx) {
 				c.Ob(fn, "done-get-notfound", rc.Ret, stmt).OK("T:IsNotFound(Get)")
 			case notFoundOf(rc.Facts, delCall):
 				c.Ob(fn, "done-delete-notfound", rc.Ret, stmt).OK("T:IsNotFound(Delete)")
-			case controlled(rc.Facts, false) && get != nil && p.errOfCallIsNil(rc.Facts, get):
+			case holdsAtReturn(rc, func(fs []Fact) bool { return controlled(fs, false) }) && get != nil && p.errOfCallIsNil(rc.Facts, get):
 				c.Ob(fn, "done-orphaned", rc.Ret, stmt).OK("F:IsControlledBy (orphaned phase)")
 			default:
 				c.Ob(fn, "done-unjustified", rc.Ret, stmt).Fail("done=true without IsNotFound(Get), IsNotFound(Delete) or !IsControlledBy")
